@@ -1084,6 +1084,13 @@ func c15Tasks(tier string) []mc.Task {
 			c15Replay(c, cs)
 		}
 	}})
+	ts = append(ts, mc.Task{Name: "manyrows#all", Run: func(c *mc.Ctx) {
+		for _, n := range []int{257, 258, 259, 515, 65537, 65538, 65539} {
+			for _, repl := range []string{"", "MAJ"} {
+				c15ManyRows(c, c15Case{Op: "manyrows", Alpha: "nt", Max: n, Repl: repl})
+			}
+		}
+	}})
 	return ts
 }
 
@@ -1107,8 +1114,59 @@ func c15Sched(c *mc.Ctx, cs c15Case) {
 	}, func(a, b any) bool { return a == b })
 }
 
+// c15ManyRows: one column of Max rows: a residue A occurring Max-2 times, C and G once each.  Rare residues
+// (threshold 1) are exactly C and G, whatever the number of rows (counters narrower than int wrap at 256, 65536).
+// The case travels as {Op: "manyrows", Max: number of rows, Repl}.
+func c15ManyRows(c *mc.Ctx, cs c15Case) {
+	c.Eval()
+	n := cs.Max
+	al := align.NewAlign(align.NUCLEOTIDS)
+	for i := 0; i < n; i++ {
+		ch := "A"
+		if i == n/2 {
+			ch = "C"
+		} else if i == n-1 {
+			ch = "G"
+		}
+		if err := al.AddSequence(fmt.Sprintf("s%d", i), ch+"T", ""); err != nil {
+			c.Fatal("cannot build %d rows: %v", n, err)
+			return
+		}
+	}
+	var err error
+	if pn, msg := mc.Guard(func() { err = al.MaskOccurences("", 1, cs.Repl) }); pn {
+		c.Violation("C15/MaskOccurences/many-rows/panic", msg+": "+jsonStr(cs), cs)
+		return
+	}
+	if err != nil {
+		c.Violation("C15/MaskOccurences/many-rows/unexpected-error", err.Error()+": "+jsonStr(cs), cs)
+		return
+	}
+	want := byte('N')
+	if cs.Repl == "MAJ" {
+		want = 'A'
+	}
+	for i := 0; i < n; i++ {
+		s, _ := al.GetSequenceById(i)
+		exp := "AT"
+		if i == n/2 || i == n-1 {
+			exp = string([]byte{want, 'T'})
+		}
+		if s != exp {
+			c.Violation("C15/MaskOccurences/many-rows/cells", fmt.Sprintf("row %d of %d is %q, expected %q (A occurs %d times, C and G once; threshold 1, replacement %q): %s", i, n, s, exp, n-2, cs.Repl, jsonStr(cs)), cs)
+			return
+		}
+	}
+	c.Nontrivial(jsonStr(cs))
+	c.Outcome("manyrows:ok")
+}
+
 // c15Replay runs one written-out case on a fresh alignment.
 func c15Replay(c *mc.Ctx, cs c15Case) {
+	if cs.Op == "manyrows" {
+		c15ManyRows(c, cs)
+		return
+	}
 	if strings.HasPrefix(cs.Op, "sched-") {
 		c15Sched(c, cs)
 		return
